@@ -383,6 +383,7 @@ PLAN = {
             {"name": "stall", "flavour": "native", "shards": 2, "shards_thorough": 8, "timeout": 1800},
             {"name": "wake", "flavour": "native", "shards": 2, "shards_thorough": 8, "timeout": 1800},
             {"name": "vanish", "flavour": "native", "shards": 2, "shards_thorough": 4, "timeout": 1800},
+            {"name": "events", "flavour": "native", "shards": 2, "shards_thorough": 4, "timeout": 1800},
         ],
     },
 }
